@@ -199,6 +199,10 @@ class Verifier:
 
     def bind(self, c: Contract, args, kwargs, ex, p):
         m, fnode, cls = self.signature(c)
+        if isinstance(fnode, ast.ClassDef):
+            if args:
+                raise Unsupported(f"positional arguments to model constructor {c.target}")
+            return dict(kwargs)
         if fnode is not None:
             return bind_arguments(ex, m, fnode, args, kwargs, p)
         names = c.params or []
@@ -224,12 +228,16 @@ class Verifier:
         sb = SymBuilder(self.repo, self.ann_resolver)
         specs = dict(c.types)
         specs.update(types or {})
-        a = fnode.args
-        params = [x.arg for x in list(a.posonlyargs) + list(a.args) + list(a.kwonlyargs)]
+        is_class = isinstance(fnode, ast.ClassDef)
+        if is_class:
+            params = list(specs)
+        else:
+            a = fnode.args
+            params = [x.arg for x in list(a.posonlyargs) + list(a.args) + list(a.kwonlyargs)]
         values = {}
         for nm in params:
             if fixed and nm in fixed:
-                values[nm] = fixed[nm]
+                values[nm] = fixed[nm](sb) if callable(fixed[nm]) else fixed[nm]
             elif nm in specs:
                 values[nm] = sb.make(specs[nm], nm)
             elif nm in ("cls", "self"):
@@ -237,15 +245,22 @@ class Verifier:
             else:
                 raise Unsupported(f"contract {cname}: no type for parameter {nm}")
         bg = list(sb.wf)
-        ex = Exec(self.repo, m, self.handlers, self.inline, c.mode, True, 1000, bg, self.numeric, self.trace)
+        ex = Exec(self.repo, m, self.handlers, self.inline, c.mode, True, 300, bg, self.numeric, self.trace)
         ex.inline_prefixes = ("contracts.",)
         p0 = Path([], {})
         pre = self.pred(ex, c, "requires", values, p0) if "requires" in c.funcs else z3.BoolVal(True)
         if extra_pre is not None:
             pre = z3.And(pre, extra_pre(values))
-        is_gen = any(isinstance(x, (ast.Yield, ast.YieldFrom)) for x in ast.walk(fnode))
+        is_gen = (not is_class) and any(isinstance(x, (ast.Yield, ast.YieldFrom)) for x in ast.walk(fnode))
         start = Path([pre], dict(values), Lst(items=[]) if is_gen else None)
-        ex.run_body(fnode, start)
+        if is_class:
+            # the target is a pydantic model: run the construction contract (real validators inlined)
+            from .models import construct_model
+            qual = c.target.replace(":", ".")
+            for q, obj in construct_model(ex, start, qual, dict(values), fnode):
+                ex.outcomes.append(Outcome("return", q.cond, val=obj, line=fnode.lineno))
+        else:
+            ex.run_body(fnode, start)
         obls = []
         base = f"{prop}/{c.target.split(':')[0].replace('soundevent.', '')}.{c.target.split(':')[1]}{tag}"
         inputs = dict(values)
@@ -300,7 +315,7 @@ class Verifier:
         sb = SymBuilder(self.repo, self.ann_resolver)
         values = {nm: sb.make(spec, nm) for nm, spec in types.items()}
         bg = list(sb.wf)
-        ex = Exec(self.repo, m, self.handlers, self.inline, mode, False, 1000, bg, self.numeric, self.trace)
+        ex = Exec(self.repo, m, self.handlers, self.inline, mode, False, 300, bg, self.numeric, self.trace)
         ex.inline_prefixes = ("contracts.",)
         assumed = []
         goal = self.pred_node(ex, m, fnode, values, Path([], {}), assumptions_out=assumed)
